@@ -1,6 +1,8 @@
 import ScyllaVerif.Model.Util
 import ScyllaVerif.Model.Codec
 import ScyllaVerif.Model.TypedCarrier
+import ScyllaVerif.Model.C01TypedDecode
+import ScyllaVerif.Model.C01ExternalConv
 /-! Line-protocol driver for C01.
 
 Notation (space separated prefix tokens, explicit counts; strings / bytes as hex, `-` = empty; every
@@ -17,16 +19,18 @@ fixed-width number is the hex of its big-endian two's-complement bit pattern):
 
 Cases:
   `dyn T V`        → `<cell hex> -> <decoded value>` | `<cell hex> -> err K` | `err K`
-  `carrier C T V`  → `<cell hex>` | `err K`      (V is the embedding of the Rust carrier value; the model runs
+  `carrier C T V`  → `<cell hex> => <typed decode of it>` | `err K`      (V is the embedding of the Rust carrier value; the model runs
                      the TYPED serializer `TypedCarrier.serCarrier` of carrier C on the un-embedded value)
   `carrierset C T V` → `ok <header hex> <entries sorted>` | `err K` (hash-based carriers: entry order is arbitrary)
   `dec T <hex>|null` → `<decoded value>` | `err K`  (decoder on an arbitrary cell body)
   `dynraw T V`     → `<content hex>` | `err K`   (`write_size = false` at the top level)
   `big blob n`     → `ok <len>` | `err SizeOverflow`  (size check only)
-  `tdec C T <hex>` → echo (typed decoders are oracle-only)
+  `conv K n…`      → the driver's conversion between an external-crate value (given by components) and a core carrier
+  `tdec C T <hex>` → `<embedding of the decoded Rust value>` | `err K` | `no-typecheck` (typed deserializer)
+  `carrierser C T V` → `<cell hex>` | `err K` (carriers without a `DeserializeValue` impl)
 -/
 namespace ScyllaVerif.Drive.C01
-open ScyllaVerif.Util ScyllaVerif.Cql ScyllaVerif.Codec ScyllaVerif.Vint ScyllaVerif.TypedCarrier
+open ScyllaVerif.Util ScyllaVerif.Cql ScyllaVerif.Codec ScyllaVerif.Vint ScyllaVerif.TypedCarrier ScyllaVerif.TypedDecode
 
 def utf8ok (bs : List UInt8) : Bool := ByteArray.validateUTF8 ⟨bs.toArray⟩
 
@@ -400,6 +404,33 @@ def runCarrier (name : String) (t : CqlTy) (v : CqlVal) : Option (Except SerErr 
     | none => none
     | some x => some (serCarrier c t x true [])
 
+/-- `conv` cases: the arithmetic model of the external-crate conversions (`Model/C01ExternalConv.lean`). -/
+def runConv (w : List String) : String :=
+  open ScyllaVerif.ExternalConv in
+  match w, w.tail.mapM String.toInt? with
+  | "time_date" :: _, some [jd] => toString (timeDateToCql jd)
+  | "cql_time_date" :: _, some [d] => match cqlToTimeDate d with
+    | some jd => toString jd
+    | none => "overflow"
+  | "time_time" :: _, some [h, m, s, n] => toString (timeTimeToCql h m s n)
+  | "cql_time_time" :: _, some [x] => match cqlToTimeTime x with
+    | some (h, m, s, n) => s!"{h} {m} {s} {n}"
+    | none => "overflow"
+  | "time_odt" :: _, some [secs, nanos] => toString (timeOdtToCql secs nanos)
+  | "cql_time_odt" :: _, some [ms] => match cqlToTimeOdt ms with
+    | some (secs, nanos) => s!"{secs} {nanos}"
+    | none => "overflow"
+  | "chrono_time" :: _, some [secs, frac] => match chronoTimeToCql secs frac with
+    | some x => toString x
+    | none => "overflow"
+  | "cql_chrono_time" :: _, some [x] => match cqlToChronoTime x with
+    | some (secs, frac) => s!"{secs} {frac}"
+    | none => "overflow"
+  | "chrono_dt" :: _, some [secs, millis] => toString (chronoDtToCql secs millis)
+  | "cql_chrono_dt" :: _, some [ms] => let r := cqlToChronoDt ms; s!"{r.1} {r.2}"
+  | "chrono_date" :: _, some [days] => toString (chronoDateToCql days)
+  | _, _ => "bad-case"
+
 def run (case _impl : String) : String :=
   let toks := words case
   let fuel := toks.length + 1
@@ -415,6 +446,22 @@ def run (case _impl : String) : String :=
         | .ok cell => toHex cell ++ " -> " ++ showDec (decBytes utf8ok t cell)
       | _ => "bad-case"
   | "carrier" :: name :: rest =>
+    match parseTy fuel rest with
+    | none => "bad-case"
+    | some (t, r) =>
+      match parseVal fuel r, carrierOfName name with
+      | some (v, []), some c =>
+        match runCarrier name t v with
+        | none => "bad-case"
+        | some (.error e) => "err " ++ serErrName e
+        | some (.ok cell) =>
+          -- the carrier's own bytes through the TYPED deserializer (`TypedDecode.deserCarrier`)
+          toHex cell ++ " => " ++ (match typedRead utf8ok c t cell with
+            | none => "no-typecheck"
+            | some (.error e) => "err " ++ deErrName e
+            | some (.ok x) => " ".intercalate (showVal (embed c x)))
+      | _, _ => "bad-case"
+  | "carrierser" :: name :: rest =>
     match parseTy fuel rest with
     | none => "bad-case"
     | some (t, r) =>
@@ -451,7 +498,34 @@ def run (case _impl : String) : String :=
     match n.toNat? with
     | some n => if n > i32Max then "err SizeOverflow" else "ok " ++ toString (n + 4)
     | none => "bad-case"
-  | "tdec" :: _ => _impl  -- typed decoders are not modelled: oracle-only cases (no panic, idempotence)
+  | ["big", "unsetvec", n] =>
+    -- `vec![Unset; n]` bound to `list<int>`: the model itself for small n, `Props.C01.too_many_elements` above `i32::MAX`
+    match n.toNat? with
+    | some n =>
+      if n > i32Max then "err TooManyElements"
+      else if n > 4096 then "bad-case"
+      else match encImpl (.list (.native .int)) (.list (List.replicate n .unset)) true [] with
+        | .ok cell => "ok " ++ toString cell.length
+        | .error e => "err " ++ serErrName e
+    | none => "bad-case"
+  | "conv" :: rest => runConv rest
+  | "tdec" :: name :: rest =>
+    -- the typed deserializer of carrier `name` on an arbitrary cell body
+    match parseTy fuel rest, carrierOfName name with
+    | some (t, r), some c =>
+      let cell : Option (Option (List UInt8)) := match r with
+        | ["null"] => some none
+        | [h] => (parseHex h).map some
+        | _ => none
+      match cell with
+      | none => "bad-case"
+      | some o =>
+        if tcheck c t then
+          match deserCarrier utf8ok c t o with
+          | .error e => "err " ++ deErrName e
+          | .ok x => " ".intercalate (showVal (embed c x))
+        else "no-typecheck"
+    | _, _ => "bad-case"
   | "dec" :: rest =>
     match parseTy fuel rest with
     | none => "bad-case"
